@@ -170,14 +170,15 @@ func Codec(name string) (iface.IO, error) {
 
 // EntryRec is one element of U as the TLA+ modules see it.
 type EntryRec struct {
-	W    int    `json:"w"`
-	T    int    `json:"t"`
-	Next []int  `json:"next"`
-	Refs []int  `json:"refs"`
-	H    int    `json:"h"`
-	Lid  string `json:"lid"`
-	V    int    `json:"v"`
-	Seen bool   `json:"seen"` // false: a CID that was referenced but whose entry was never observed
+	W       int    `json:"w"`
+	T       int    `json:"t"`
+	Next    []int  `json:"next"`
+	Refs    []int  `json:"refs"`
+	H       int    `json:"h"`
+	Lid     string `json:"lid"`
+	NilKeys int    `json:"nilkeys"` // keys the entry index lists without holding an entry for them
+	V       int    `json:"v"`
+	Seen    bool   `json:"seen"` // false: a CID that was referenced but whose entry was never observed
 }
 
 // Registry maps CID strings to small integers (first sight order) and digests
@@ -403,6 +404,7 @@ type RepState struct {
 	Ident      int      `json:"ident"`
 	Pure       bool     `json:"pure"`
 	Lid        string   `json:"lid"`
+	NilKeys    int      `json:"nilkeys"`  // keys the entry index lists without holding an entry for them
 	Bad        []BadRec `json:"bad"`      // tampered copies this replica holds (ground truth from the script)
 	OrigDigs   []int    `json:"origdigs"` // digest id each entry of Ents had when it was first observed
 }
@@ -419,9 +421,8 @@ func keysToIDs(g *Registry, om iface.IPFSLogOrderedEntries) []int {
 		return out
 	}
 	for _, e := range om.Slice() {
-		if e == nil {
-			out = append(out, 0)
-			continue
+		if e == nil || !e.Defined() {
+			continue // counted by Project as NilKeys
 		}
 		out = append(out, g.Observe(e))
 	}
@@ -467,6 +468,11 @@ func Project(g *Registry, pool *Pool, l *ipfslog.IPFSLog, pure bool) RepState {
 	st.Digs = []int{}
 	st.GetDigs = []int{}
 	for _, e := range entries.Slice() {
+		if e == nil || !e.Defined() {
+			// the index lists a key it has no entry for
+			st.NilKeys++
+			continue
+		}
 		st.Digs = append(st.Digs, g.DigID(Digest(e)))
 		got, ok := l.Get(e.GetHash())
 		if !ok {
@@ -481,6 +487,9 @@ func Project(g *Registry, pool *Pool, l *ipfslog.IPFSLog, pure bool) RepState {
 	}
 	st.VDigs = []int{}
 	for _, e := range vals.Slice() {
+		if e == nil || !e.Defined() {
+			continue
+		}
 		st.VDigs = append(st.VDigs, g.DigID(Digest(e)))
 	}
 	if l.Identity != nil {
